@@ -130,4 +130,98 @@ theorem range_window (n : Nat) :
     (List.range' 1 80).contains n = (decide (0 < n) && decide (n ≤ 80)) := by
   rw [Bool.eq_iff_iff]; simp [List.mem_range'_1]; omega
 
+/-! ### passes (first entries and re-entries) -/
+
+theorem pass_failed_iff (h e a : Nat) :
+    (pass h e a).failed = true ↔ Generated.maxExecutionHistoryLength < h + e := by
+  unfold pass
+  split <;> simp_all
+
+theorem pass_len_failed (h e a : Nat) (hf : (pass h e a).failed = true) :
+    (pass h e a).len = h + e + closingEvents := by
+  unfold pass at hf ⊢
+  split <;> simp_all
+
+theorem pass_len_ok (h e a : Nat) (hf : (pass h e a).failed = false) :
+    (pass h e a).len = h + e + a ∧ h + e ≤ Generated.maxExecutionHistoryLength := by
+  unfold pass at hf ⊢
+  split <;> simp_all
+
+theorem visit_eq_pass (h a : Nat) : visit h a = pass h 1 a := rfl
+
+theorem runHistory_eq_runPasses (adds : List Nat) :
+    ∀ h, runHistory h adds = runPasses h (adds.map (fun a => (1, a))) := by
+  induction adds with
+  | nil => intro h; rfl
+  | cons a rest ih =>
+    intro h
+    simp only [runHistory, List.map_cons, runPasses, visit_eq_pass]
+    rw [ih]
+    by_cases hc : (pass h 1 a).failed = true <;> simp [hc]
+
+/-- invariant of a run of passes: started within `limit + K`, it stays within `limit + K` while
+it runs and ends within `limit + K + 1 + closingEvents` when it is failed -/
+theorem runPasses_bound (K : Nat) (ps : List (Nat × Nat)) :
+    ∀ h, (∀ p ∈ ps, p.1 ≤ 1 ∧ p.2 ≤ K) → h ≤ Generated.maxExecutionHistoryLength + K →
+      ((runPasses h ps).failed = false →
+        (runPasses h ps).len ≤ Generated.maxExecutionHistoryLength + K) ∧
+      (runPasses h ps).len ≤ Generated.maxExecutionHistoryLength + K + 1 + closingEvents := by
+  induction ps with
+  | nil => intro h _ hh; simp [runPasses]; omega
+  | cons p rest ih =>
+    intro h hk hh
+    have hp := hk p (by simp)
+    have hrest : ∀ q ∈ rest, q.1 ≤ 1 ∧ q.2 ≤ K := fun q hq => hk q (by simp [hq])
+    cases hf : (pass h p.1 p.2).failed with
+    | true =>
+      have hl := pass_len_failed h p.1 p.2 hf
+      simp only [runPasses, hf, if_true]
+      constructor
+      · intro h'; simp at h'
+      · omega
+    | false =>
+      obtain ⟨hl, hle⟩ := pass_len_ok h p.1 p.2 hf
+      simp only [runPasses, hf]
+      have : (pass h p.1 p.2).len ≤ Generated.maxExecutionHistoryLength + K := by omega
+      simpa using ih (pass h p.1 p.2).len hrest this
+
+/-- a run of passes that was not failed, each pass of which records at least one event, never
+went through a check with more than the limit recorded -/
+theorem runPasses_running (ps : List (Nat × Nat)) :
+    ∀ h, (∀ p ∈ ps, 1 ≤ p.1 + p.2) → ps ≠ [] → (runPasses h ps).failed = false →
+      h + (ps.length - 1) ≤ Generated.maxExecutionHistoryLength := by
+  induction ps with
+  | nil => intro h _ hne; exact absurd rfl hne
+  | cons p rest ih =>
+    intro h hpos _ hrun
+    cases hf : (pass h p.1 p.2).failed with
+    | true => simp [runPasses, hf] at hrun
+    | false =>
+      obtain ⟨hl, hle⟩ := pass_len_ok h p.1 p.2 hf
+      simp only [runPasses, hf] at hrun
+      have hp := hpos p (by simp)
+      cases rest with
+      | nil => simp; omega
+      | cons q rest' =>
+        have := ih (pass h p.1 p.2).len (fun r hr => hpos r (by simp [hr])) (by simp) (by simpa using hrun)
+        simp at this ⊢
+        omega
+
+theorem runPasses_failed_over (ps : List (Nat × Nat)) :
+    ∀ h, (runPasses h ps).failed = true →
+      Generated.maxExecutionHistoryLength < (runPasses h ps).len := by
+  induction ps with
+  | nil => intro h hf; simp [runPasses] at hf
+  | cons p rest ih =>
+    intro h hf
+    cases hp : (pass h p.1 p.2).failed with
+    | true =>
+      have hl := pass_len_failed h p.1 p.2 hp
+      have := (pass_failed_iff h p.1 p.2).mp hp
+      simp only [runPasses, hp, if_true]
+      omega
+    | false =>
+      simp only [runPasses, hp] at hf ⊢
+      exact ih _ (by simpa using hf)
+
 end Asl.Quota
